@@ -67,6 +67,9 @@ Base == <<
   \*     split at whitespace the first root's shell word ends with the comma
   << <<"select", "">>, S1("path"), S1("from"), S1("sub,"), S1("sub/deep"), S1("where"), S1("name"), <<"=", "eq">>, S1("'*.txt'") >>,
   << S1("select"), S1("name"), S1("from"), S1("sub"), <<"depth", "maxdepth">>, S1("1,"), S1("sub/deep"), <<"", "bfs">> >>,
+  \* a first column whose name contains an option word; arithmetic in GROUP BY written with the sign and with the word
+  << <<"select", "">>, S1("exif_version"), S1(","), S1("name"), S1("from"), S1(".") >>,
+  << S1("select"), S1("count(*)"), S1(","), S1("size"), <<"%", "mod">>, S1("2"), S1("from"), S1("."), S1("group"), S1("by"), S1("size"), <<"%", "mod">>, S1("2") >>,
   \* a sign in front of a bracket, in both bracket kinds
   << S1("select"), S1("name"), S1(","), <<"-(size + 1)", "-{size + 1}">>, S1("from"), S1("."), S1("where"), S1("size"), S1(">"), <<"-(1 - 3)", "-{1 - 3}">> >>,
   \* literals that spell a command-line option word (the query passed as one argument is still a query)
